@@ -66,6 +66,46 @@ def run_on_variants(chk, prog, sim, fn, key, table_fn):
         chk.discharge(key)
 
 
+def check_clone_from(chk, prog, sim):
+    """Clone::clone_from is provided (`*self = source.clone()`), so the clone table covers it - unless an impl overrides it.
+    An override on ReferenceUnsafe / Reference is interpreted on every (self variant, source variant) pair: afterwards self must
+    be the source's variant carrying the source's payload (same object), with a refcount bump for the owning variants."""
+    for tname in ("ReferenceUnsafe", "Reference"):
+        for fn in prog.find_fns(name="clone_from", self_name=tname, trait="Clone"):
+            if "body" not in fn:
+                continue
+            key = "V:clone_from:" + tname
+            chk.obligation(key, "overridden clone_from of %s makes self denote the source's object" % tname)
+            chk.analysed(fn["pretty"])
+            st = S.State()
+            gargs = sim.identity_gargs(fn)
+            a0 = sim.make_arg(st, "self", subst(fn["sig_inputs"][0], gargs))
+            b0 = sim.make_arg(st, "source", subst(fn["sig_inputs"][1], gargs))
+            ok = True
+            for leaf in sim.run(fn, gargs, [a0, b0], st):
+                chk.evaluated(1, nontrivial=(key, repr(leaf.pc)))
+                if leaf.kind != "return":
+                    chk.violation("analysis-incomplete" if leaf.kind == "unsupported" else "C17.V", key + ":" + leaf.kind, "%s: %s %s (an overridden clone_from that cannot be shown equal to `*self = source.clone()`)"
+                                  % (fn["pretty"], leaf.kind, leaf.info.get("msg")), fn=fn["pretty"], file=loc(fn["span"]))
+                    ok = False
+                    continue
+                fin = sim.final_value(leaf.state, leaf.state.mem[a0.ptr.obj])
+                src = sim.final_value(leaf.state, leaf.state.mem[b0.ptr.obj])
+                if isinstance(fin, Struct) and len(fin.fields) == 1:
+                    fin, src = fin.fields[0], (src.fields[0] if isinstance(src, Struct) and len(src.fields) == 1 else src)
+                good = isinstance(fin, Enum) and isinstance(src, Enum) and fin.vname == src.vname and tuple(fin.fields) == tuple(src.fields)
+                if not good and isinstance(fin, Enum) and isinstance(src, Enum) and fin.vname == src.vname and len(fin.fields) == 1:
+                    # on a path where Rc/Arc::ptr_eq(self payload, source payload) was taken as TRUE the two payloads are the same target
+                    pe = "ptr_eq(%s)" % ", ".join(sorted((repr(fin.fields[0]), repr(src.fields[0]))))
+                    good = any(p[0] == "bool" and p[1] == pe and p[2] is True for p in leaf.pc)
+                if not good:
+                    chk.violation("C17.V", "clone_from:%s:%s" % (tname, getattr(src, "vname", "?")), "%s (%s): after a.clone_from(&b) with b = %r, a is %r - it does not denote b's object"
+                                  % (fn["pretty"], loc(fn["span"]), src, fin), fn=fn["pretty"], file=loc(fn["span"]))
+                    ok = False
+            if ok:
+                chk.discharge(key)
+
+
 def clone_table(sim, leaf, var):
     r = sim.final_value(leaf.state, leaf.value)
     if not (isinstance(r, Enum) and r.vname == var):
@@ -379,6 +419,7 @@ def run(chk):
         run_on_variants(chk, prog, sim, borrow[0], "V:borrow", mk_borrow_table(BORROW_TABLE))
         run_on_variants(chk, prog, sim, borrow_mut[0], "V:borrow_mut", mk_borrow_table(BORROW_MUT_TABLE))
         check_wrappers(chk, prog, sim)
+        check_clone_from(chk, prog, sim)
     finally:
         M.LOCAL_MODELS_ENABLED = True
     macro_hygiene(chk, prog)
